@@ -48,9 +48,11 @@ fn main() {
         "C09" => frmon::c09::run(&ctx),
         "C12" => frmon::c12::run(&ctx),
         "C13" => frmon::c13::run(&ctx),
+        "C14" => frmon::c14::run(&ctx),
         "C15" => frmon::c15::run(&ctx),
         "C16" => frmon::c16::run(&ctx),
         "C17" => frmon::c17::run(&ctx),
+        "C19" => frmon::c19::run(&ctx),
         "C20" => frmon::c20::run(&ctx),
         _ => {
             eprintln!("unknown property {}", prop);
